@@ -523,14 +523,23 @@ def _post(chk, cases, bad, extra):
     wide_explore.explore(chk, extra, "C01")
     import c04_validated                       # validated(...)/bounded(...) element and attribute types
     c04_validated.explore(chk, extra, "C01", n_quick=1200, n_thorough=15000)
+    # an existing instance handed over as replacement / value / element together with keywords
+    # (update(<replacement>, kw...), transform(<fn returning an instance>, ...), update_/with_<attr>,
+    # element helpers) on the classes outside the model: the caller's object is never written
+    import c04_replacement
+    c04_replacement.explore(chk, extra, "C01", n_quick=1200, n_thorough=20000)
 
 
 def _aimed(rng, t):
     quick = t == "quick"
     # elements addressed by index / key / scalar value; then elements of a List of spec items
     # addressed BY VALUE with an instance (own element, the caller's original, equal instance)
+    # then an existing instance handed over as the complete replacement / nested value / element
+    # together with keywords (`update(<replacement>, kw...)` etc.): they go into a copy
     return (ig.element_cases(rng, 300 if quick else 5000, inplace_values=(False,))
-            + ig.byvalue_cases(rng, 120 if quick else 1500, inplace_values=(False,)))
+            + ig.byvalue_cases(rng, 120 if quick else 1500, inplace_values=(False,))
+            + ig.replacement_cases(rng, 110 if quick else 2000, inplace_values=(False,))
+            + ig.replacement_cases(rng, 30 if quick else 500, inplace_values=(False,), flavour="wide"))
 
 
 def main(tier, replay=None):  # noqa: F811
@@ -539,6 +548,9 @@ def main(tier, replay=None):  # noqa: F811
         return c04_validated.replay("C01", replay)
     if replay and '"byvalue-probe"' in open(replay).read():
         return byvalue_replay(replay)
+    if replay and '"replacement-probe"' in open(replay).read():
+        import c04_replacement
+        return c04_replacement.replay("C01", replay)
     if replay:
         return inst_check.replay("C01", replay, 2)
     return inst_check.run("C01", tier, 2, GENS, 400, 6000, ASSUMPTIONS, post=_post, aimed=_aimed)
